@@ -526,7 +526,7 @@ func init() {
 			if tier == "quick" {
 				return map[string]any{"d1": "3 (empty), 2 (sparse-3, aligned-3, word-edge), 1 (block-edge)", "L": "2 (all kinds), 3 (int, d1=2), 1 (block-edge)", "filter_steps": 37}
 			}
-			return map[string]any{"d1": 3, "L": "3 (int on empty/sparse-3), 2 (other kinds), 1 (block-edge)", "filter_steps": 37}
+			return map[string]any{"d1": "3 with L=2 and 2 with L=3 (empty), 3/L2 and 1/L3 (sparse-3), 2 (aligned-3: L2, aligned-3-late: L3, word-edge, block-edge: L2); int also d1=3/L3 and d1=4/L2", "filter_steps": 37}
 		},
 		Units: func(tier string) (units []eng.Unit) {
 			var specs []c04Spec
@@ -540,11 +540,14 @@ func init() {
 						specs = append(specs, c04Spec{kd, "empty", 2, 3}, c04Spec{kd, "aligned-3", 2, 2}, c04Spec{kd, "word-edge", 2, 2}, c04Spec{kd, "block-edge", 1, 1})
 					}
 				} else {
-					L := 2
+					specs = append(specs,
+						c04Spec{kd, "empty", 3, 2}, c04Spec{kd, "empty", 2, 3},
+						c04Spec{kd, "sparse-3", 3, 2}, c04Spec{kd, "sparse-3", 1, 3},
+						c04Spec{kd, "aligned-3", 2, 2}, c04Spec{kd, "aligned-3-late", 2, 3},
+						c04Spec{kd, "word-edge", 2, 2}, c04Spec{kd, "block-edge", 2, 2})
 					if kd == "int" {
-						L = 3
+						specs = append(specs, c04Spec{kd, "empty", 3, 3}, c04Spec{kd, "empty", 4, 2})
 					}
-					specs = append(specs, c04Spec{kd, "empty", 3, L}, c04Spec{kd, "sparse-3", 3, 2}, c04Spec{kd, "aligned-3", 2, 2}, c04Spec{kd, "aligned-3-late", 2, L}, c04Spec{kd, "word-edge", 2, 2}, c04Spec{kd, "block-edge", 2, 1})
 				}
 			}
 			for _, s := range specs {
